@@ -230,7 +230,18 @@ func (fr *Frame) loopWrites(li *loopInfo) (cells map[ssa.Value]bool, heaps map[s
 				top = true
 			case *ssa.Go:
 				top = true
+			case *ssa.Send:
+				fr.chanGhostWrites(heaps, "chsends", "chlast")
+			case *ssa.Select:
+				fr.chanGhostWrites(heaps, "chsends", "chlast", "chrecvs", "chlastrecv")
+			case *ssa.UnOp:
+				if in.Op == token.ARROW {
+					fr.chanGhostWrites(heaps, "chrecvs", "chlastrecv")
+				}
 			case *ssa.Call:
+				if b, ok := in.Call.Value.(*ssa.Builtin); ok && b.Name() == "close" {
+					fr.chanGhostWrites(heaps, "chcloses")
+				}
 				// names bound by "at call ... let" clauses at this call
 				if fr.top && fr.contract != nil {
 					cn := ""
@@ -275,6 +286,16 @@ func (fr *Frame) loopWrites(li *loopInfo) (cells map[ssa.Value]bool, heaps map[s
 		}
 	}
 	return
+}
+
+// chanGhostWrites adds the declared channel-operation ghost maps to a loop's
+// write set.
+func (fr *Frame) chanGhostWrites(heaps map[string]bool, names ...string) {
+	for _, n := range names {
+		if g := fr.vc.specs.ghost(n); g != nil && g.IsMap {
+			heaps[g.heapName()] = true
+		}
+	}
 }
 
 // closureCellWrites lists the outer cells a closure body stores to.
@@ -444,6 +465,10 @@ func (fr *Frame) enterLoop(li *loopInfo, pre *State, pc Term) *State {
 		for _, h := range hn {
 			if vc.specs.isPrivateHeap(h) || vc.specs.isImmutableHeap(h) {
 				vc.havocHeapKeepOld(st, pre, h, pc)
+			} else if isChanGhostHeap(h) {
+				// channel operations executed by the loop body itself
+				vc.heap(st, h, vc.specs.ghost(strings.TrimSuffix(strings.TrimPrefix(h, "|GH:"), "|")).sort())
+				vc.havocHeap(st, h)
 			}
 		}
 	} else {
